@@ -89,6 +89,9 @@ def pattern(rows: int, cols: int) -> np.ndarray:
 
 def bucket_array(bucket: str, v: float, rows: int, cols: int, args: dict) -> Any:
     base = v + pattern(rows, cols)
+    if bucket in (args.get("dark") or ()):
+        # a dark frame: the bucket is written, every element is zero
+        base = np.zeros((rows, cols))
     if bucket in ("photon", "photon+"):
         return base.astype(args.get("float_dtype", "float64"))
     if bucket in ("photon3d", "photon3d+"):
